@@ -3,6 +3,7 @@ import json
 from fractions import Fraction
 
 import fsamodel as F
+import translate_wfsa as TW
 from fsacheck import WTable, run_w, coq_str
 from common import dec_val, close_enough
 
@@ -20,6 +21,9 @@ def rand_expr(rng, depth, nT):
             # operands with a state that is both initial and final are wanted too
             if rng.random() < 0.3 and m["init"]:
                 m["final"].append([m["init"][0][0], "1/3"])
+            # operand states named like the tags used for renaming operands apart: (1, q) / (2, q)
+            if rng.random() < 0.35:
+                m["names"] = rng.choice([0, 1, 2])
             return {"op": "m", "m": m}
         if r < 0.8:
             return {"op": "lift", "x": rng.randrange(nT), "w": "1/2"}
@@ -36,7 +40,10 @@ def scale(e, f):
     """scale all operand weights (keeps star convergent)"""
     if e["op"] == "m":
         m = e["m"]
-        return {"op": "m", "m": {"nT": m["nT"], "init": m["init"], "final": m["final"], "arcs": [[i, a, j, F.fs(Fraction(w) * f)] for i, a, j, w in m["arcs"]]}}
+        out = {"op": "m", "m": {"nT": m["nT"], "init": m["init"], "final": m["final"], "arcs": [[i, a, j, F.fs(Fraction(w) * f)] for i, a, j, w in m["arcs"]]}}
+        if m.get("names") is not None:
+            out["m"]["names"] = m["names"]
+        return out
     out = dict(e)
     for k in ("a", "b"):
         if k in e:
@@ -113,7 +120,14 @@ def run(ctx):
     quick = ctx.tier == "quick"
     ctx.cov["rule"] = ("random nested expressions (depth <= 3) over union, concatenation, star, plus, reverse, rename, one, zero, lift, from_string with operand automata having epsilon arcs, several initial/final states and states that are both; "
                        "value on all strings to length 3 vs the Coq model of the same constructions (epsilon closure + forward pass, proved = path sums; union/reverse/rename/concat laws proved); from_strings vs set membership; both WFSA classes; non-trivial = non-zero weight")
-    ok, out = ctx.build(["proofs/WfsaProofs.vo", "proofs/RationalOps.vo", "model/EpsSpec.vo"])
+    try:
+        ctx.cov["translators"].append(TW.main())
+        ctx.obligation("translate_wfsa", True)
+        tr_ok = True
+    except TW.Refuse as e:
+        ctx.obligation("translate_wfsa", False, f"translator refused: {e}")
+        tr_ok = False
+    ok, out = ctx.build(["proofs/WfsaProofs.vo", "proofs/RationalOps.vo", "proofs/GenWfsaBridge.vo", "model/EpsSpec.vo"]) if tr_ok else (False, "translator refused")
     if ok:
         ctx.prove("props/C12.v")
     else:
@@ -128,6 +142,19 @@ def run(ctx):
         e = scale(rand_expr(ctx.rng, ctx.rng.randint(1, 3), nT), Fraction(1, 2))
         if mass(e) is not None:  # inside the domain: every star converges
             es.append(e)
+    # binary operations whose operands' states are named like the tags used for renaming operands apart
+    def leaf(tag):
+        m = F.rand_wfsa(ctx.rng, n=ctx.rng.randint(1, 3), nT=nT, narcs=ctx.rng.randint(1, 4), peps=0.1, eps_acyclic=True, ws=[Fraction(1, 2), Fraction(1, 3), Fraction(1, 4)])
+        if tag is not None:
+            m["names"] = tag
+        return {"op": "m", "m": m}
+    k = 0
+    while k < n // 2:
+        e = scale({"op": ctx.rng.choice(["union", "concat"]), "a": leaf(ctx.rng.choice([0, 1, 2, None])), "b": leaf(ctx.rng.choice([None, None, 0, 1, 2]))}, Fraction(1, 2))
+        if mass(e) is not None:
+            es.append(e)
+            k += 1
+            ctx.dist("tagged-operands")
     tab = WTable(ctx, "expr")
     strs = [list(x) for x in F.strings(nT, 3)]
     for i, e in enumerate(es):
